@@ -240,7 +240,7 @@ fn run_op_here(sched: &Sched, me: usize, idx: usize, op: &SOp, alloc_seams: bool
     let counts = IoCounts::default();
     let io = IoParams { seed: op.io_seed, counts: &counts };
     let nested_out: Rc<RefCell<Vec<Judged>>> = Rc::new(RefCell::new(Vec::new()));
-    let rname = route_name(op.route, op.io_seed);
+    let rname = format!("{}{}", route_name(op.route, op.io_seed), if op.binary { "-binary" } else { "" });
     let mut rec = OpRecord {
         line: String::new(),
         violations: Vec::new(),
@@ -264,6 +264,7 @@ fn run_op_here(sched: &Sched, me: usize, idx: usize, op: &SOp, alloc_seams: bool
         Some(model_unit_form(op.route, variant.as_deref().unwrap()))
     } else {
         let cell = RefCell::new(Seam::new(sched, me, op.ser_fault));
+        cell.borrow_mut().binary = op.binary;
         arm(&cell, 0);
         let out = with_library_seams(sched, me, alloc_seams, || caught(|| subj.ser(op.route, &cell, &io)));
         let s = cell.borrow();
@@ -306,6 +307,7 @@ fn run_op_here(sched: &Sched, me: usize, idx: usize, op: &SOp, alloc_seams: bool
     let mut de_line = String::from("-");
     if let Some(form) = &form {
         let cell = RefCell::new(Seam::new(sched, me, op.de_fault));
+        cell.borrow_mut().binary = op.binary;
         arm(&cell, 1);
         let out = with_library_seams(sched, me, alloc_seams, || caught(|| subj.de(op.route, form, &cell, &io)));
         let s = cell.borrow();
